@@ -1631,6 +1631,9 @@ FROM (
                     return f"'{canonical.replace(chr(39), chr(39) * 2)}'"
             return f"vtl_period_normalize(CAST({expr} AS VARCHAR))"
 
+        if target_type_str == "Duration" and source_lower == "string":
+            return f"vtl_string_to_duration({expr})"
+
         if target_lower in ("time", "timeinterval"):
             # Implicit promotions (TimeInterval.implicit_cast): a Date becomes the one-day
             # interval, a TimePeriod the interval between its first and last day.
